@@ -15,7 +15,7 @@ use serde_json::{json, Value};
 use std::io::Cursor;
 
 const ITERATING: [&[u8; 4]; 18] = [b"moov", b"trak", b"mdia", b"minf", b"stbl", b"dinf", b"dref", b"udta", b"meta", b"ilst", b"\xa9nam", b"\xa9day", b"covr", b"desc", b"mvex", b"moof", b"traf", b"avc1"];
-const ITERATING2: [&[u8; 4]; 1] = [b"mp4a"];
+const ITERATING2: [&[u8; 4]; 2] = [b"mp4a", b"wave"];
 const UNORDERED: [&[u8; 4]; 10] = [b"moov", b"trak", b"mdia", b"minf", b"stbl", b"udta", b"mvex", b"traf", b"ilst", b"meta"];
 const SPARE_OK: [&[u8; 4]; 21] = [b"mvhd", b"tkhd", b"mdhd", b"vmhd", b"smhd", b"stts", b"ctts", b"stss", b"stsc", b"stsz", b"stco", b"co64", b"elst", b"mehd", b"trex", b"mfhd", b"tfhd", b"tfdt", b"trun", b"hdlr", b"url "];
 
@@ -254,7 +254,7 @@ fn merge(a: &mut Local, b: Local) {
     }
 }
 
-fn progressive_movies() -> Vec<(String, LMovie)> {
+fn progressive_movies() -> Vec<(String, LMovie, Option<usize>)> {
     let mut v = vec![];
     let s = |n: usize| -> Vec<LSample> { (0..n).map(|i| LSample { size: 1 + (i as u32 % 3), delta: 10 + i as u32, cts: if i % 2 == 1 { 4 } else { 0 }, sync: i % 2 == 0 }).collect() };
     // AVC + AAC, all optional tables, metadata, edit lists
@@ -267,21 +267,28 @@ fn progressive_movies() -> Vec<(String, LMovie)> {
     t2.edts = Some(1);
     let mut m = LMovie::new(1000, vec![t1, t2]);
     m.moov_extra = vec![udta(vec![meta(true, vec![hdlr(0, 0, b"mdir", ""), ilst(vec![ilst_item(&[0xa9, b'n', b'a', b'm'], 1, b"Title"), ilst_item(&[0xa9, b'd', b'a', b'y'], 1, b"2024"), ilst_item(b"covr", 13, &[1, 2, 3]), ilst_item(b"desc", 1, b"Summary")])])])];
-    v.push(("avc+aac with metadata".to_string(), m));
+    v.push(("avc+aac with metadata".to_string(), m, None));
     // HEVC + TTXT, QuickTime-form meta, constant sample size
     let mut t1 = LTrack::simple(1, Codec::Hevc, 90000, (0..2).map(|_| LSample { size: 2, delta: 3000, cts: 0, sync: true }).collect(), vec![2]);
     t1.const_size = true;
     let t2 = LTrack::simple(2, Codec::Tx3g, 1000, s(2), vec![1, 1]);
     let mut m = LMovie::new(600, vec![t1, t2]);
     m.moov_extra = vec![udta(vec![meta(false, vec![hdlr(0, 0, b"mdir", ""), ilst(vec![ilst_item(&[0xa9, b'n', b'a', b'm'], 1, b"QT")])])])];
-    v.push(("hevc+ttxt with QuickTime meta".to_string(), m));
+    v.push(("hevc+ttxt with QuickTime meta".to_string(), m, None));
     // VP9 alone, mdat first
     let mut t1 = LTrack::simple(1, Codec::Vp9, 1000, s(3), vec![1, 2]);
     t1.ctts = Some(1);
     t1.samples[1].cts = -3;
     let mut m = LMovie::new(1000, vec![t1]);
     m.mdat_first = true;
-    v.push(("vp9, mdat first".to_string(), m));
+    v.push(("vp9, mdat first".to_string(), m, None));
+    // VP9 + AAC in the QuickTime form (mp4a v1 with esds inside `wave`), a meta box directly in moov as well as in udta
+    let t1 = LTrack::simple(1, Codec::Vp9, 30, s(2), vec![1, 1]);
+    let t2 = LTrack::simple(2, Codec::Aac, 44100, s(3), vec![2, 1]);
+    let mut m = LMovie::new(1000, vec![t1, t2]);
+    m.moov_extra = vec![meta(true, vec![hdlr(0, 0, b"mdta", "x"), unknown(b"keys", 12)]), udta(vec![Node::leaf(b"name", b"n".to_vec()), meta(true, vec![hdlr(0, 0, b"mdir", ""), ilst(vec![ilst_item(&[0xa9, b'd', b'a', b'y'], 0, &2020u32.to_be_bytes())])])])];
+    m.top_front = vec![free(4)];
+    v.push(("vp9+aac(wave), moov-level meta, binary year".to_string(), m, Some(1)));
     v
 }
 
@@ -314,8 +321,11 @@ pub fn run(tier: Tier, seed: u64) -> i32 {
     let mut l = Local::default();
     let mut fams = vec![];
 
-    for (name, m) in progressive_movies() {
-        let base_nodes = nodes(&m);
+    for (name, m, wave) in progressive_movies() {
+        let mut base_nodes = nodes(&m);
+        if let Some(ti) = wave {
+            crate::refmp4::kitchen::wrap_mp4a_in_wave(&mut base_nodes, ti);
+        }
         let (b0, a0) = serialize(&base_nodes);
         let d0 = match open(&b0).map_err(|e| e).and_then(|r| logical_digest(&r)) {
             Ok(d) => d,
